@@ -64,4 +64,6 @@ PROPS = {
         'theorems': ['verdict_wellformed', 'nonstring_nonce_is_invalid', 'splitter_in_bounds', 'no_unexpected_type_assertions', 'no_unexpected_index_or_slice', 'no_explicit_panics'],
         'trusted': ['hand-written interaction-tree model of Process/redirectToIDP/retrieveTokens/refreshToken (AuthModel/Oidc/Handler.lean), tied to the code by the differential run (response + ordered action trace per request line)', 'oracles: jwt parsing and claims (jwx), JWS verification (checked against an independent stdlib RSA verification in the harness), SHA-256/base64url; url.Parse of the callback URI', 'library code (jwx, encoding/json, url.ParseQuery, go-redis) is sampled by the differential run, not proved'],
     },
+    'C09': {'theorems': [], 'module': 'Handler0', 'trusted': []},
+    'C04': {'theorems': [], 'module': 'Handler0', 'trusted': []},
 }
